@@ -87,10 +87,19 @@ impl RoutingTable {
             return false;
         }
 
-        if self
-            .buckets()
-            .values()
-            .any(|bucket| node.already_exists(&bucket.nodes))
+        // Updating a node we already have does not add another node on its IP,
+        // leave it to the bucket to refresh it.
+        let is_update = self.buckets.get(&distance).is_some_and(|bucket| {
+            bucket
+                .iter()
+                .any(|existing| existing.id() == node.id() && existing.same_ip(&node))
+        });
+
+        if !is_update
+            && self
+                .buckets()
+                .values()
+                .any(|bucket| node.already_exists(&bucket.nodes))
         {
             return false;
         };
